@@ -49,22 +49,25 @@ def optimize_incrementals(sequence: Reversible[str]):
     # identifying terminal points for incrementals; aka, -x x, 'x'
     # is the terminal point- no point in having -x.
     finalized = set()
+    cleared = False
     for item in reversed(sequence):
         if item[0] == "-":
             i = item[1:]
             if not i:
                 raise ValueError("encountered an incomplete negation (just -, no flag)")
+            if cleared:
+                continue
             if i == "*":
-                # seen enough.
+                # seen enough; nothing earlier survives, but keep walking so that
+                # a malformed token is rejected wherever it sits in the sequence.
                 yield item
-                return
-            if i not in finalized:
+                cleared = True
+            elif i not in finalized:
                 finalized.add(i)
                 yield item
-        else:
-            if item not in finalized:
-                yield item
-                finalized.add(item)
+        elif not cleared and item not in finalized:
+            yield item
+            finalized.add(item)
 
 
 def incremental_chunked(orig: set[str], iterables):
